@@ -186,6 +186,12 @@ class Injector:
 
     # -- wrappers --------------------------------------------------------------------------
     def _popen(self, *args, **kwargs):
+        if kwargs.get('env') is None:
+            # helpers start ~10x per second: let them cache byte code, in the run's scratch
+            env = dict(os.environ)
+            env.pop('PYTHONDONTWRITEBYTECODE', None)
+            env['PYTHONPYCACHEPREFIX'] = os.path.join(boot.scratch_root(), 'c14-pyc')
+            kwargs['env'] = env
         p = self.orig_popen(*args, **kwargs)
         inc = _Inc(len(self.incs) + 1, p)
         self.incs.append(inc)
@@ -410,6 +416,13 @@ class Resources:
         self.base_threads = len(_threads())
 
     def check(self, inj, where, viol, final=False):
+        if final:
+            # the finalizer has sent SIGKILL: death is asynchronous, give it time (bounded)
+            import time
+            for _ in range(1000):
+                if not inj.live_pids():
+                    break
+                time.sleep(0.01)
         # 1. zombies among the recorded helper pids, then anything else that is reapable
         for inc in inj.incs:
             if _proc_state(inc.pid) == 'Z':
@@ -433,7 +446,13 @@ class Resources:
             viol.append(('fd-leak' if len(fds) > want else 'fd-missing',
                          {'where': where, 'open': len(fds), 'expected': want,
                           'not_in_baseline': [e[1].split(':')[0] for e in extra][:8]}))
-        # 3. stderr reader threads: one per live helper
+        # 3. stderr reader threads: one per live helper.  The reader of a dead helper ends by
+        # itself at EOF; give it the time to see it (bounded), then count.
+        dead_err = [i.popen.stderr for i in inj.incs if not _alive(i.pid)]
+        for t in _threads():
+            a = getattr(t, '_args', None)
+            if a and any(a[0] is f for f in dead_err):
+                t.join(10)
         th = _threads()
         if len(th) != self.base_threads + len(live):
             viol.append(('stderr-thread-left-alive' if len(th) > self.base_threads + len(live)
@@ -498,6 +517,8 @@ def _reference(scn):
         if rs[0] != rs[3] + 1 or rs[1:3] != rs[4:6]:
             raise _HarnessBug('unexpected request counts %r' % rs)
         _state[key] = {'R': rs, 'logs': logs, 'answers': per_q}
+        gc.collect()
+        gc.freeze()
     return _state[key]
 
 
@@ -736,7 +757,8 @@ class _HistRunner:
             expect = 'ok'
             if attempted:
                 expect = model.request(rec['inc'], rec['sid'])
-            if out[0] == 'ok' and _state.setdefault('hq2', out[1]) != out[1]:
+            if out[0] == 'ok' and not model.incs[rec['inc']]['dead'] \
+                    and _state.setdefault('hq2', out[1]) != out[1]:
                 viol.append(('history-query-differs', {'where': where}))
         elif ev[0] == 'D':
             rec = live.pop(int(ev[1]))
@@ -778,7 +800,7 @@ class _HistRunner:
                 viol.append(('helper-state-count', {'where': where, 'model': want,
                                                     'helper': observed,
                                                     'live_scripts': len(live)}))
-            elif pend != mp:
+            elif sorted(pend) != sorted(mp):
                 viol.append(('deletion-queue', {'where': where, 'queue_len': len(pend),
                                                 'model_len': len(mp)}))
         sub = None
@@ -796,10 +818,20 @@ class _HistRunner:
         txt = ' '.join(events)
         for n, ev in enumerate(events):
             trace.append(self.event(ev, 'after event %d (%s) of %s' % (n, ev, txt), viol))
-        # back to a quiescent state: no live Script, everything collected
+        # back to a quiescent state: no live Script, everything collected, and a healthy
+        # helper (a throw-away Script notices a crash nobody has noticed yet, the next one gets
+        # the replacement); these clean-up events are judged like all others
+        cw = 'clean-up after %s' % txt
         for slot in sorted(self.live):
-            self.event('D%d' % slot, 'clean-up after %s' % txt, viol)
-        self.event('G', 'clean-up after %s' % txt, viol)
+            self.event('D%d' % slot, cw, viol)
+        self.event('G', cw, viol)
+        for _ in range(3):
+            m = self.model
+            if m.cur is not None and not m.incs[m.cur]['dead']:
+                break
+            self.event('C', cw, viol)
+            self.event('D0', cw, viol)
+            self.event('G', cw, viol)
         return {'id': 'hist:' + ''.join(events), 'viol': _dedup(viol), 'steps': len(events),
                 'obs': ','.join('-' if t is None else str(t) for t in trace)}
 
@@ -930,17 +962,9 @@ def _init():
     settings.cache_directory = cd
     _state.pop('project', None)
     _injector()
-    for scn in sorted(SCENARIOS):
-        inherited = _state.get('ref:' + scn)
-        if inherited is None:
-            _reference(scn)
-            continue
-        # forked from the learning parent: one undisturbed run must reproduce what it learnt
-        rs, logs, answers = _undisturbed(scn, LEARN_LEN)
-        per_q = dict(zip(_seq(scn, LEARN_LEN), answers))
-        if rs != inherited['R'] or logs != inherited['logs'] or per_q != inherited['answers']:
-            raise _HarnessBug('worker does not reproduce the learnt undisturbed run of %s: %r vs %r'
-                              % (scn, rs, inherited['R']))
+    # scenarios are learnt on demand (_reference): forked workers inherit what the parent
+    # learnt — every chain re-validates it (warm-up answers, and every armed fault must fire);
+    # a replay process learns only the scenario of its case
     gc.collect()
     gc.freeze()       # the warm heap (typeshed trees) is not garbage: keep gc.collect() cheap
 
@@ -1040,8 +1064,8 @@ def _levels(tier, refs):
         levels.append(('1 crash, cold start: s0,s1,s2 all k',
                        chains('s0', cold1('s0'), True) + chains('s1', cold1('s1'), True)
                        + chains('s2', cold1('s2'), True)))
-        levels.append(('2 crashes: s0 cos,opi (all k1 x phase1 x k2 x phase2)',
-                       chains('s0', warm2('s0', [0, 1]))))
+        levels.append(('2 crashes: s0 cos->opi, pi->cos (all k1 x phase1 x k2 x phase2)',
+                       chains('s0', warm2('s0', [0, 2]))))
         levels.append(('3 consecutive crashes (diagonal): s0, s1 all queries',
                        chains('s0', diag3('s0', [0, 1, 2])) + chains('s1', diag3('s1', [0, 1, 2]))))
     depth = 5 if tier == 'quick' else 6
@@ -1062,11 +1086,15 @@ def run(ctx):
     _injector()
     refs = {scn: _reference(scn) for scn in sorted(SCENARIOS)}
     gc.collect()
+    gc.freeze()
     if _threads():
         ctx.harness_error('threads left in the parent before forking: %r' % _threads())
     levels = _levels(ctx.tier, refs)
-    tasks = [(name, t) for name, ts in levels for t in ts]
-    # interleave so that every worker gets a similar mix (cheap/expensive), levels stay ordered
+    # levels are interleaved proportionally (each stays in its own simplest-first order), so
+    # that a time cap cuts every level at the same fraction instead of dropping the last ones
+    tasks = sorted(((j + 0.5) / len(ts), li, name, t) for li, (name, ts) in enumerate(levels)
+                   for j, t in enumerate(ts))
+    tasks = [(name, t) for _, _, name, t in tasks]
     pres = pool.run([t for _, t in tasks], 'jv.props.c14:_work', init='jv.props.c14:_init',
                     seed=ctx.seed, deadline=ctx.deadline, tag='c14')
     ctx.absorb(pres, 'c14')
